@@ -10,7 +10,7 @@ from ipaddress import ip_address, ip_network
 
 import xfrm
 from crypto import RsaPrivateKey, RsaPublicKey
-from message import PayloadID, Proposal, TrafficSelector, Transform
+from message import IkeSaError, PayloadID, Proposal, TrafficSelector, Transform
 
 __author__ = 'Alejandro Perez-Mendez <alejandro.perez.mendez@gmail.com>'
 
@@ -90,12 +90,20 @@ class Configuration(object):
         """ Creates a new Configuration object from a textual dict
         """
         self.ike_configurations = {}
+        if not isinstance(conf_dict, dict):
+            raise ConfigurationError('The configuration must be a mapping of connection names to connections')
         for connection_name, ikeconfdict in conf_dict.items():
             try:
                 ikeconf = self._load_ike_conf(connection_name, ikeconfdict, my_addresses)
                 self.ike_configurations[(ikeconf.my_addr, ikeconf.peer_addr)] = ikeconf
             except KeyError as ex:
                 raise ConfigurationError(f'Mandatory parameter {ex} missing for connection "{connection_name}"')
+            except ConfigurationError:
+                raise
+            except (AttributeError, TypeError, ValueError, OverflowError, IkeSaError) as ex:
+                # a value of the wrong type or out of range (a list where a mapping is expected, a non-numeric
+                # lifetime, a key that is not PEM, ...): reject the configuration, do not crash
+                raise ConfigurationError(f'Invalid value in connection "{connection_name}": {ex!r}')
 
     def _load_ike_conf(self, name, conf_dict, my_addresses):
         encr = self._load_crypto_algs('encr', conf_dict.get('encr', ['aes256']), _encr_name_to_transform)
